@@ -52,6 +52,11 @@ def run_history(ctx: Ctx, rng, idx: int, steps: int, iters: bool, stream: str):
         ctx.count("outcome:" + st)
         if st != "ok":
             real_dumps.append((st, None))
+            # a call that raises is still a call: it must not leave the forest half-edited
+            msg = heapsim.oracle_c01(w)
+            if msg:
+                ctx.violation(f"after a call that raised ({st}) the views no longer describe one tree: " + msg,
+                              case={"kinds": kinds, "ops": ops, "parsed": parsed, "twin": getattr(w, "twin_choices", None)}, observed=msg, stream=stream)
             break
         real_dumps.append(("ok", w.dump(iters)))
         msg = heapsim.oracle_c01(w)
@@ -112,7 +117,7 @@ def run(ctx: Ctx):
                 "all live elements vs the Lean model, and the direct oracle. non-trivial = a history in which an argument came "
                 "from the same parent, from elsewhere in the forest, was a BeautifulSoup object or was repeated")
     ctx.assumptions = ["calls that would put an element beneath itself are never generated (outside the quantifier)",
-                       "negative positions are never generated (outside the modelled domain, see DESIGN.md C02)"]
+                       "positions are any Python integers: negative ones count from the end as in list.insert (Model/Heap.lean normPos)"]
     parsed_documents(ctx)
     n_hist = ctx.n(300, 4000)
     steps = ctx.n(25, 40)
